@@ -196,6 +196,9 @@ func checkC18(sc *Scenario, res *RunResult, t *Truth) []Violation {
 	var vs []Violation
 	spec := sc.LogBuf
 	if spec == nil {
+		if sc.Arm == "ws" {
+			return checkC18WS(sc, res, t)
+		}
 		return nil
 	}
 	for _, p := range res.Out.Panics {
